@@ -12,9 +12,11 @@
      t_values, t_strings, t_string_map, t_value_map, str_of, is_valid, compiles
                         the meaning of the generated Go code, evaluated against the constants
                         of a source (const_env p = the source it was generated from)
+     first_name D v     the first declared constant with value v: when several constants share a
+                        value (aliases) it is the name that stands for the value, as with stringer
      enum_guard p T     decidable guard: the package compiles, no spec's type is only inferred from
-                        its expression (K_enum_implicit_type), no two constants of T with one value
-                        (K_enum_dup) or one trimmed name
+                        its expression (K_enum_implicit_type), no two constants of T with one
+                        trimmed name.  Aliases and qualified-type specs are inside the guard.
    All theorems hold for every package of the grammar (any number of types, files,
    blocks, specs, names) and every x : Z.  Only `exact`s here; proofs are in
    Proofs/Enum{Collect,Tables,Bits,Proofs}.v. *)
@@ -43,46 +45,71 @@ Theorem C04_generated_iff_has_constants : forall p T fl,
 Proof. exact P_generate_some_iff. Qed.
 Print Assumptions C04_generated_iff_has_constants.
 
-(* each declared constant maps to its name with the type-name prefix trimmed
-   (StringMap and String) and back (ValueMap) *)
+(* each declared constant maps back from its trimmed name (ValueMap holds EVERY
+   constant); its value maps to the trimmed name of the first declared constant
+   with that value (StringMap and String), which in turn maps back to the value *)
 Theorem C04_constant_to_name_and_back : forall p T fl g n v,
   enum_guard p T = true -> generate p T fl = Some g -> In (n, v) (declared T p) ->
-  assoc_z v (t_string_map (const_env p) g) = Some (trim_prefix n T)
-  /\ str_of (const_env p) g v = trim_prefix n T
-  /\ assoc_s (trim_prefix n T) (t_value_map (const_env p) g) = Some v.
+  assoc_s (trim_prefix n T) (t_value_map (const_env p) g) = Some v
+  /\ exists n1, first_name (declared T p) v = Some n1
+       /\ assoc_z v (t_string_map (const_env p) g) = Some (trim_prefix n1 T)
+       /\ str_of (const_env p) g v = trim_prefix n1 T
+       /\ assoc_s (trim_prefix n1 T) (t_value_map (const_env p) g) = Some v.
 Proof. exact P_constant_to_name_and_back. Qed.
 Print Assumptions C04_constant_to_name_and_back.
 
-(* ... and the two maps contain nothing else *)
+(* ... and that first name is the constant itself unless the value has an alias
+   declared before it: "each declared constant maps to its name and back" *)
+Theorem C04_first_name_is_the_constant : forall p T fl g n v,
+  enum_guard p T = true -> generate p T fl = Some g -> In (n, v) (declared T p) ->
+  exists n1, first_name (declared T p) v = Some n1 /\ In (n1, v) (declared T p)
+             /\ ((forall n', In (n', v) (declared T p) -> n' = n) -> n1 = n).
+Proof. exact P_first_name. Qed.
+Print Assumptions C04_first_name_is_the_constant.
+
+(* StringMap is exactly `value |-> trimmed first declared name`, for every integer *)
+Theorem C04_string_map_exact : forall p T fl g x,
+  enum_guard p T = true -> generate p T fl = Some g ->
+  assoc_z x (t_string_map (const_env p) g)
+  = option_map (fun n => trim_prefix n T) (first_name (declared T p) x).
+Proof. exact P_string_map_exact. Qed.
+Print Assumptions C04_string_map_exact.
+
+(* the two maps contain nothing else; one StringMap entry per value, one
+   ValueMap entry per constant *)
 Theorem C04_maps_hold_only_declared : forall p T fl g,
   enum_guard p T = true -> generate p T fl = Some g ->
   (forall x s, assoc_z x (t_string_map (const_env p) g) = Some s ->
-               exists n, In (n, x) (declared T p) /\ s = trim_prefix n T)
+               exists n, In (n, x) (declared T p) /\ first_name (declared T p) x = Some n
+                         /\ s = trim_prefix n T)
   /\ (forall s v, assoc_s s (t_value_map (const_env p) g) = Some v ->
                   exists n, In (n, v) (declared T p) /\ s = trim_prefix n T)
-  /\ List.length (t_string_map (const_env p) g) = List.length (declared T p)
+  /\ List.length (t_string_map (const_env p) g) = List.length (t_values (const_env p) g)
   /\ List.length (t_value_map (const_env p) g) = List.length (declared T p).
 Proof. exact P_maps_hold_only_declared. Qed.
 Print Assumptions C04_maps_hold_only_declared.
 
-(* Values() and Strings(): same length (one entry per declared constant), and
-   position i of both belongs to one declared constant *)
+(* Values() and Strings(): same length, and position i of both belongs to one
+   declared constant (the first declared one with that value) *)
 Theorem C04_values_strings_aligned : forall p T fl g,
   enum_guard p T = true -> generate p T fl = Some g ->
   List.length (t_values (const_env p) g) = List.length (t_strings g)
-  /\ List.length (t_values (const_env p) g) = List.length (declared T p)
   /\ forall i v s,
        nth_error (t_values (const_env p) g) i = Some v -> nth_error (t_strings g) i = Some s ->
-       exists n, In (n, v) (declared T p) /\ s = trim_prefix n T.
+       exists n, In (n, v) (declared T p) /\ first_name (declared T p) v = Some n
+                 /\ s = trim_prefix n T.
 Proof. exact P_values_strings_aligned. Qed.
 Print Assumptions C04_values_strings_aligned.
 
-(* Values() is strictly ascending and is a rearrangement of the declared values
-   (signed kinds as signed numbers, uint64 above MaxInt64 as unsigned) *)
+(* Values() is strictly ascending (signed kinds as signed numbers, uint64 above
+   MaxInt64 as unsigned), holds exactly the declared values -- each once --, and
+   without aliases is a rearrangement of the declared values *)
 Theorem C04_values_ascending : forall p T fl g,
   enum_guard p T = true -> generate p T fl = Some g ->
   StronglySorted Z.lt (t_values (const_env p) g)
-  /\ Permutation (t_values (const_env p) g) (map snd (declared T p)).
+  /\ (forall x, In x (t_values (const_env p) g) <-> In x (map snd (declared T p)))
+  /\ (NoDup (map snd (declared T p)) ->
+      Permutation (t_values (const_env p) g) (map snd (declared T p))).
 Proof. exact P_values_ascending. Qed.
 Print Assumptions C04_values_ascending.
 
@@ -218,21 +245,32 @@ Qed.
 
 (* --------------------------------- the guards are needed: known findings ---- *)
 
-(* K_enum_dup (open): two constants with one value -> duplicate keys in the
-   generated map literals -> the fresh output does not compile *)
+(* K_enum_dup (repaired in /repo): two constants with one value used to give
+   duplicate constant keys in the generated map literals (the output did not
+   compile).  Now the value is listed once, under its first declared name, while
+   ValueMap and the stale guard still cover every constant: aliases are inside
+   the guard and all theorems above apply to them. *)
 Definition dup_pkg : pkg :=
   {| p_types := [("Color", KInt)];
      p_files := [ [ [ vs ["Red"] (TIdent "Color") [ELit 1];
                       vs ["Crimson"] (TIdent "Color") [ELit 1];
-                      vs ["Blue"] (TIdent "Color") [ELit 2] ] ] ] |}.
+                      vs ["Blue"] (TIdent "Color") [ELit 2];
+                      vs ["ColorFirst"] (TIdent "Color") [ERef "Red"] ] ] ] |}.
 
-Theorem C04_refuted_K_enum_dup :
-  exists p T fl g,
-    wf_pkg p = true /\ shape_ok p = true /\ no_implicit p = true
-    /\ generate p T fl = Some g
-    /\ compiles (const_env p) g false = false.
-Proof. exists dup_pkg, "Color", no_flags. eexists. conj; vm_compute; reflexivity. Qed.
-Print Assumptions C04_refuted_K_enum_dup.
+Example C04_example_K_enum_dup_repaired :
+  enum_guard dup_pkg "Color" = true
+  /\ first_name (declared "Color" dup_pkg) 1 = Some "Red"
+  /\ exists g, generate dup_pkg "Color" no_flags = Some g
+       /\ compiles (const_env dup_pkg) g false = true
+       /\ t_values (const_env dup_pkg) g = [1; 2]
+       /\ t_strings g = ["Red"; "Blue"]
+       /\ t_value_map (const_env dup_pkg) g = [("Red", 1); ("Crimson", 1); ("First", 1); ("Blue", 2)]
+       /\ str_of (const_env dup_pkg) g 1 = "Red"
+       /\ g_guard g = [("Red", 1); ("Crimson", 1); ("ColorFirst", 1); ("Blue", 2)].
+Proof.
+  split; [vm_compute; reflexivity|]. split; [vm_compute; reflexivity|].
+  eexists. conj; vm_compute; reflexivity.
+Qed.
 
 (* K_enum_implicit_type (open): `PermRW = PermRead | PermWrite` has type Perm
    for the Go compiler, but the carry-down walk only looks at the syntax of the
